@@ -484,16 +484,27 @@ func (c *Ctx) headerCtorRules(r *Report, prefix string, bf *buildersFile) {
 	}
 	sort.Strings(bad)
 	r.Check(len(bad) == 0, rule, "message.NewHeader: fields", c.Pos(nh.Pos()), "version 2.0 and all arguments stored in their fields", strings.Join(bad, "; "))
-	okF := len(flags) == 2
-	for _, fs := range flags {
-		switch {
-		case fs.ok && fs.param == 3 && fs.k == hv("flag_response"):
-		case fs.ok && fs.param == 4 && fs.k == hv("flag_initiator"):
-		default:
+	// Flags as a function of (response, initiator): the four cases are evaluated on the SSA form (branches on
+	// the two parameters followed, the Flags cell and φ-nodes tracked), so "h.Flags |= k under if p" and
+	// "flags := 0; if p { flags |= k }; Flags: flags" are the same thing
+	okF := true
+	var fdetail []string
+	for _, cse := range [][2]bool{{false, false}, {true, false}, {false, true}, {true, true}} {
+		want := int64(0)
+		if cse[0] {
+			want |= hv("flag_response")
+		}
+		if cse[1] {
+			want |= hv("flag_initiator")
+		}
+		got, ok := evalFlagsField(nh, map[int]bool{3: cse[0], 4: cse[1]}, "Flags")
+		if !ok || got != want {
 			okF = false
+			fdetail = append(fdetail, fmt.Sprintf("response=%v initiator=%v gives %#x (evaluated=%v), expected %#x", cse[0], cse[1], got, ok, want))
 		}
 	}
-	r.Check(okF, rule, "message.NewHeader: flags", c.Pos(nh.Pos()), "Flags |= 0x20 under response (p3), Flags |= 0x08 under initiator (p4), nothing else", fmt.Sprintf("flag assignments %v do not match {response: 0x20, initiator: 0x08}", flags))
+	_ = flags
+	r.Check(okF, rule, "message.NewHeader: flags", c.Pos(nh.Pos()), "Flags = 0x20 iff response (p3) | 0x08 iff initiator (p4), evaluated for the four cases", strings.Join(fdetail, "; "))
 	// accessors
 	for _, acc := range []struct {
 		name string
@@ -907,4 +918,138 @@ func (c *Ctx) truncationRules(r *Report, prefix string) {
 			}
 		}
 	}
+}
+
+// evalFlagsField runs fn abstractly with the boolean parameters bound (index -> value) and returns the
+// integer last stored into the named field of the struct the function builds, on the path to its return.
+// Only what a constructor needs is interpreted: constants, | & ^ + on integers, φ-nodes, branches on the
+// bound parameters (and their negation), loads/stores of the field. Anything else makes it give up.
+func evalFlagsField(fn *ssa.Function, params map[int]bool, field string) (int64, bool) {
+	val := map[ssa.Value]int64{}
+	known := map[ssa.Value]bool{}
+	var mem int64
+	memSet := false
+	isField := func(a ssa.Value) bool {
+		fa, ok := a.(*ssa.FieldAddr)
+		return ok && strings.HasSuffix(FieldKey(fa.X.Type(), fa.Field), "."+field)
+	}
+	var eval func(v ssa.Value) (int64, bool)
+	eval = func(v ssa.Value) (int64, bool) {
+		if known[v] {
+			return val[v], true
+		}
+		switch x := v.(type) {
+		case *ssa.Const:
+			if x.Value == nil {
+				return 0, true
+			}
+			if x.Value.Kind() == constant.Bool {
+				if constant.BoolVal(x.Value) {
+					return 1, true
+				}
+				return 0, true
+			}
+			return constInt64(x.Value)
+		case *ssa.Parameter:
+			if pi := paramIndex(fn, x); pi >= 0 {
+				if b, ok := params[pi]; ok {
+					if b {
+						return 1, true
+					}
+					return 0, true
+				}
+			}
+		case *ssa.Convert:
+			return eval(x.X)
+		case *ssa.ChangeType:
+			return eval(x.X)
+		}
+		return 0, false
+	}
+	b := fn.Blocks[0]
+	var prev *ssa.BasicBlock
+	for steps := 0; steps < 200; steps++ {
+		for _, ins := range b.Instrs {
+			switch x := ins.(type) {
+			case *ssa.Phi:
+				for i, p := range b.Preds {
+					if p == prev {
+						if v, ok := eval(x.Edges[i]); ok {
+							val[x], known[x] = v, true
+						}
+					}
+				}
+			case *ssa.BinOp:
+				a, ok1 := eval(x.X)
+				c2, ok2 := eval(x.Y)
+				if ok1 && ok2 {
+					ok := true
+					var rv int64
+					switch x.Op {
+					case token.OR:
+						rv = a | c2
+					case token.AND:
+						rv = a & c2
+					case token.XOR:
+						rv = a ^ c2
+					case token.ADD:
+						rv = a + c2
+					case token.EQL:
+						if a == c2 {
+							rv = 1
+						}
+					case token.NEQ:
+						if a != c2 {
+							rv = 1
+						}
+					default:
+						ok = false
+					}
+					if ok {
+						val[x], known[x] = rv, true
+					}
+				}
+			case *ssa.UnOp:
+				if x.Op == token.MUL && isField(x.X) {
+					if memSet {
+						val[x], known[x] = mem, true
+					} else {
+						val[x], known[x] = 0, true // zero value of a fresh struct
+					}
+				} else if x.Op == token.NOT {
+					if a, ok := eval(x.X); ok {
+						val[x], known[x] = 1-a, true
+					}
+				}
+			case *ssa.Store:
+				if isField(x.Addr) {
+					v, ok := eval(x.Val)
+					if !ok {
+						return 0, false
+					}
+					mem, memSet = v, true
+				}
+			case *ssa.If:
+				cv, ok := eval(x.Cond)
+				if !ok {
+					return 0, false
+				}
+				prev = b
+				if cv != 0 {
+					b = b.Succs[0]
+				} else {
+					b = b.Succs[1]
+				}
+			case *ssa.Jump:
+				prev = b
+				b = b.Succs[0]
+			case *ssa.Return:
+				return mem, true
+			}
+		}
+		if len(b.Instrs) == 0 {
+			return 0, false
+		}
+	}
+	return 0, false
 }
